@@ -696,6 +696,40 @@ impl Pools {
         }
     }
 
+    /// Requests of connection `i` itself whose handler replies first and changes state second: with
+    /// the connection's task dropped while they are queued, the reply fails half-way through.
+    pub fn gen_own_requests(&mut self, rng: &mut Rng, i: usize) -> Vec<Message> {
+        let kinds = [
+            K::CreateObject,
+            K::CreateService,
+            K::CreateService2,
+            K::DestroyObject,
+            K::DestroyService,
+            K::CreateChannel,
+            K::ClaimChannelEnd,
+            K::CloseChannelEnd,
+            K::SubscribeEvent,
+            K::SubscribeAllEvents,
+            K::SubscribeService,
+            K::CreateBusListener,
+            K::StartBusListener,
+            K::CallFunction,
+            K::SendItem,
+        ];
+        let n = 1 + rng.below(3);
+        let mut out = Vec::new();
+        for _ in 0..n {
+            for _try in 0..6 {
+                let k = *rng.pick(&kinds);
+                if self.feasible(i, k) {
+                    out.push(self.gen_kind(rng, i, k));
+                    break;
+                }
+            }
+        }
+        out
+    }
+
     fn feasible(&self, i: usize, kind: K) -> bool {
         let me = self.me(i);
         let v = &self.view;
